@@ -121,6 +121,29 @@ MUTATIONS += [
     ('Cython/Utility/MemoryView.pyx', 'slice_copy / memoryview_fromslice / pybuffer_index: shape stored as strides', 'C16-FIELDS'),
 ]
 
+# fifth round (fresh seed C16f + mutation brainstorming on its mechanism: the compile-time treatment of memoryview slices in ExprNodes.py, mutants/C16/pack-*, merge-*):
+# 22 breaking edits, all reported; 8 behaviour-preserving rewrites, all silent.  One genuine defect of the unmodified tree met on the way (FINDING_1 of session H2:
+# m[:, 1:][None] / m[...][..., i] merged into the wrong single indexing), rule C16-MERGE-NEW pending.
+TECHNIQUE += ('; fifth round: the static result type of a sliced view (MemoryViewIndexNode.analyse_types through MemoryViewSliceNode.analyse_operation) folded on model nodes over the complete '
+              'partition of a compile-time step x access/packing layouts (C16-PACK); normal forms of index composition for the "view[a][b]" -> "view[a, b]" rewrite (C16-MERGE)')
+DECIDES += (' (PACK) for every index-kind sequence over None / integer / `:` / slices whose step is absent, the constant 1, True, -1, 2, -2, 0, a run-time value or not computed, on ten access/packing '
+            'layouts of 1- and 2-dimensional views: the result type has one axis per slice / None and none per integer, a sliced axis takes the specification of the source axis it consumes, keeps its '
+            'access mode (or full), and keeps a contig / follow packing only when there is no step or the step is the constant 1 -- anything else must be strided, because the item access code '
+            'indexes a contig axis as data + i without reading strides[]; (MERGE) IndexNode.analyse_as_buffer_operation + MemoryViewSliceNode.merged_indices folded for every first-level index list of a '
+            '1..3-dimensional view (`:`, integer, slice with only a start / stop / step, None) and every second-level list of integers and slices up to length 3: the single indexing that is generated '
+            'has the same normal form (which source axis carries which opaque slice / index operations, where the new axes are) as NumPy\'s composition of the two indexings.')
+NOT_DECIDED += ('; second-level index lists that contain None or an Ellipsis in the view[a][b] merge (C16-MERGE-NEW reports the unmodified tree, pending finding), the item access code that consumes the '
+                'axis specifications (_generate_buffer_lookup_code: only its access modes are covered, by C17-ACCESS), IndexNode.infer_type for sliced views')
+MUTATIONS += [
+    ('Cython/Compiler/ExprNodes.py', 'seed C16f: a constant step with abs() == 1 keeps the packing (a[::-1] of long[::1] stays contig)', 'C16-PACK packing:minus-one'),
+    ('Cython/Compiler/ExprNodes.py', 'analyse_types: step test inverted / dropped / on stop / on the literal text / any positive or non-negative constant; stepped slice typed direct; '
+                                     'axis_idx not advanced for integers / advanced for None; integer keeps an axis; analyse_operation builds the type from base.type.axes', 'C16-PACK'),
+    ('Cython/Compiler/ExprNodes.py', 'merged_indices: step / start left out of the full-slice test, `or` instead of `and`, partial slice or None skipped, pop() from the end; '
+                                     'analyse_as_buffer_operation: base / base_type not switched to the underlying view', 'C16-MERGE'),
+    ('Cython/Compiler/ExprNodes.py', 'constant step == 1 keeps the packing (sound refinement); conditional expression; extracted helper (method / staticmethod); spec tuple; De Morgan; early continue; '
+                                     'merge refused for any partial slice', None),
+]
+
 MVC = 'Cython/Utility/MemoryView_C.c'
 MVP = 'Cython/Utility/MemoryView.pyx'
 MVPY = 'Cython/Compiler/MemoryView.py'
